@@ -13,6 +13,11 @@ package errorhandler
 //@   props C12 C01
 //@   ensures wh.n == old(wh.n) + 1 && wh.arg0[old(wh.n)] == rw && wh.arg1[old(wh.n)] == old(*code)
 //@   ensures !old((*options).verboseErrors) ==> wbody.n == old(wbody.n) && hset.n == old(hset.n)
+// "in the negotiated content type": when there is a body, its Content-Type (and the nosniff marker)
+// are on the response *before* the status line goes out - headers set afterwards are not sent
+//@   assert at call Set#1@abf80b6a.1: wh.n == old(wh.n) && callarg1 == "Content-Type"
+//@   assert at call Set#2@3b132f2e.1: wh.n == old(wh.n) && callarg1 == "X-Content-Type-Options"
+//@   ensures wbody.n > old(wbody.n) ==> hset.n == old(hset.n) + 2
 
 //@ func errorWriter
 //@   props C12
